@@ -4,7 +4,7 @@
      tensorly/tucker_tensor.py    _validate_tucker_tensor, tucker_to_tensor/_unfolded/_vec (skip_factor, transpose_factors)
      tensorly/tt_tensor.py        _validate_tt_tensor, tt_to_tensor/_unfolded/_vec
      tensorly/tr_tensor.py        _validate_tr_tensor, tr_to_tensor/_unfolded/_vec
-     tensorly/tt_matrix.py        _validate_tt_matrix, tt_matrix_to_tensor (tenalg/core_tenalg/_tt_matrix.py), _to_matrix, ...
+     tensorly/tt_matrix.py        _validate_tt_matrix, tt_matrix_to_tensor (tenalg/core_tenalg/_tt_matrix.py and tenalg/einsum_tenalg/_tt_matrix.py), _to_matrix, ...
      tensorly/parafac2_tensor.py  _validate_parafac2_tensor, parafac2_to_slice(s), parafac2_to_tensor/_unfolded/_vec
    Every function has the composition structure of the source (reshape with -1, dot, moveaxis, fold, the
    iterative Khatri-Rao product, zero tensor + slice updates); the small matrix helpers (mdot, mT, kr2, ...)
@@ -282,6 +282,42 @@ Definition ttm_to_matrix (cores : list (tensor F)) : res (tensor F) :=
   rbind (ttm_to_tensor cores) (fun t => reshape_spec [Some (prod (map d4b ds)); None] t)).
 Definition ttm_to_unfolded cores (mode : nat) := rbind (ttm_to_tensor cores) (fun t => unfold zero t mode).
 Definition ttm_to_vec cores := rbind (ttm_to_tensor cores) tensor_to_vec.
+
+(* einsum tenalg backend: tl.einsum("<r0 i0 o0 r1>,<r1 i1 o1 r2>,...-><i0 o0 i1 o1 ...>", *cores), then the same transposition.
+   np.einsum semantics: a label must have one size across the operands, size-1 occurrences being broadcast; the labels that do
+   not occur in the output (all rank labels, including the two boundary ones) are summed *)
+Definition bidx (d k : nat) : nat := if d =? 1 then 0 else k.
+Fixpoint ein_ok (ds : list (nat * nat * nat * nat)) : bool :=
+  match ds with
+  | x :: ((y :: _) as r) => ((d4e x =? d4a y) || (d4e x =? 1) || (d4a y =? 1)) && ein_ok r
+  | _ => true
+  end.
+Definition label_size (x : nat * nat * nat * nat) (r : list (nat * nat * nat * nat)) : nat :=
+  match r with y :: _ => Nat.max (d4e x) (d4a y) | [] => d4e x end.
+Fixpoint ein_chain (cs : list (tensor F)) (ds : list (nat * nat * nat * nat)) (ios : list nat) (a : nat) : F :=
+  match cs, ds, ios with
+  | G :: cs', x :: ds', i :: o :: ios' =>
+      fsumn (label_size x ds') (fun c => get zero G [bidx (d4a x) a; i; o; bidx (d4e x) c] *f ein_chain cs' ds' ios' c)
+  | _, _, _ => one
+  end.
+Definition ttm_to_tensor_einsum (cores : list (tensor F)) : res (tensor F) :=
+  match cores with
+  | [] => Err
+  | _ =>
+    rbind (all_shape4 cores) (fun ds =>
+    if ein_ok ds then
+      let full_shape := flat_map (fun x => [d4b x; d4c x]) ds in
+      let n := length cores in
+      let order := map (fun k => 2 * k) (seq 0 n) ++ map (fun k => 2 * k + 1) (seq 0 n) in
+      let r0 := d4a (hd (0, 0, 0, 0) ds) in
+      Ok (transpose zero order (tabulate full_shape (fun idx => fsumn r0 (fun a => ein_chain cores ds idx a))))
+    else Err)
+  end.
+Definition ttm_to_matrix_einsum (cores : list (tensor F)) : res (tensor F) :=
+  rbind (all_shape4 cores) (fun ds =>
+  rbind (ttm_to_tensor_einsum cores) (fun t => reshape_spec [Some (prod (map d4b ds)); None] t)).
+Definition ttm_to_unfolded_einsum cores (mode : nat) := rbind (ttm_to_tensor_einsum cores) (fun t => unfold zero t mode).
+Definition ttm_to_vec_einsum cores := rbind (ttm_to_tensor_einsum cores) tensor_to_vec.
 
 (* ------------------------------------------------------------------ PARAFAC2 *)
 (* P^T P == I, decided exactly (on integer-valued projections |P^T P - I| > 1e-5 iff P^T P <> I) *)
